@@ -23,7 +23,9 @@ RULE = ('Lane inputs: for each monitor kind (dt_off, dt_on, ct_off, ct_on) a gen
         'A again: third result == first. Lane isolation: two or three specification objects of different kinds with a generated '
         'interleaving of their calls; each object\'s outputs must equal those of a run in which it was alone. Lane hashseed: one batch '
         'of generated cases (multi-variable, sub-specifications, io declarations) is executed in sub-processes with PYTHONHASHSEED in '
-        '{0,1,2,random} and the JSON outputs are compared byte-wise. Non-trivial = inputs: bounded future operator over a bare variable '
+        '{0,1,2,random} and the JSON outputs are compared byte-wise. Lane after_failure: an offline object with sub-specifications whose last '
+        'requirement divides by / takes the root of a signal; history [evaluate(A)], evaluate(B) with B making that operation raise after the '
+        'earlier requirements were evaluated, evaluate(A): result and get_value of every name equal those of a fresh object (and the first result). Non-trivial = inputs: bounded future operator over a bare variable '
         'or n <= bound; repeat: temporal operator and A != B; isolation: >= 2 objects with stateful operators actually interleaved; '
         'distinct = distinct case digests.')
 
@@ -409,7 +411,128 @@ def inputs_cases(draw, tier):
     return draw(one_object(kind, bare=True))
 
 
+# ---- a failed evaluation in between -----------------------------------------------------------------------------
+
+FAULT_VAR = 'zz'
+
+
+@st.composite
+def after_failure_cases(draw, tier):
+    """An offline specification with sub-specifications / several assertions whose last requirement contains an operation
+    that fails on some data (division by a signal that reaches 0, sqrt of a signal that goes negative).  History on one
+    object: [evaluate(A)], evaluate(B) - B makes the operation fail after the earlier requirements were evaluated -,
+    evaluate(A): the last result must be that of a fresh object (and equal the first)."""
+    from ..modular import decomposed
+    kind = draw(st.sampled_from(['dt_off', 'ct_off']))
+    c = draw(decomposed(kind, tier))
+    f = from_json(c['formula'])
+    z = ('var', FAULT_VAR)
+    fault = draw(st.sampled_from(['div', 'sqrt']))
+    term = ('bin', '/', ('const', 2.0), z) if fault == 'div' else ('un', 'sqrt', z)
+    guard = ('pred', draw(st.sampled_from(['>=', '<='])), term, ('const', draw(st.sampled_from([0.5, 1.0, 4.0]))))
+    join = draw(st.sampled_from(['and', 'or', 'implies']))
+    c['formula'] = ('bin', join, f, guard) if draw(st.booleans()) else ('bin', join, guard, f)
+    c['vars'] = list(c['vars']) + [FAULT_VAR]
+    c['fault'] = fault
+    c['first_good'] = draw(st.booleans())
+    good = st.sampled_from([0.5, 1.0, 2.0, 4.0])
+    bad_value = 0.0 if fault == 'div' else -1.0
+    if kind == 'dt_off':
+        n = len(next(iter(c['trace'].values())))
+        c['trace'][FAULT_VAR] = [draw(good) for _ in range(n)]
+        m = draw(F.trace_lengths(10))
+        other = draw(F.traces(c['vars'], n=m))
+        other[FAULT_VAR] = [draw(good) for _ in range(m)]
+        other[FAULT_VAR][draw(st.integers(0, m - 1))] = bad_value
+        c['other'] = other
+    else:
+        c['signals'][FAULT_VAR] = [[k, draw(good)] for k, _ in draw(grid_signal(0, max_samples=5))]
+        other = {v: draw(grid_signal(0, max_samples=6)) for v in c['vars']}
+        zs = [[k, draw(good)] for k, _ in draw(grid_signal(0, max_samples=5))]
+        zs[draw(st.integers(0, len(zs) - 1))][1] = bad_value
+        other[FAULT_VAR] = zs
+        c['other'] = other
+    return c
+
+
+def check_after_failure(case):
+    from ..modular import build_modular, feed, sub_names
+    f = from_json(case['formula'])
+    kind = case['kind']
+    labels = ['lane:after_failure', 'kind:' + kind, 'subs:%d' % len(case['subs']), 'fault:' + case['fault']] + feature_labels(f)
+    key = 'trace' if kind == 'dt_off' else 'signals'
+    good = case
+    bad = dict(case)
+    bad[key] = case['other']
+    names = sub_names(case) + ['out']
+
+    def run(spec, c):
+        vals = {}
+
+        def collect(s, i):
+            for nm in names:
+                try:
+                    vals[nm] = copy.deepcopy(s.get_value(nm))
+                except Exception as e:  # noqa
+                    vals[nm] = 'raises ' + type(e).__name__
+        out = feed(c, spec, collect)
+        return copy.deepcopy(out), vals
+    try:
+        fresh = run(build_modular(case), good)
+    except Exception as e:  # noqa
+        return DISCARD('good-data-raises(C17):' + type(e).__name__, labels)
+    try:
+        spec = build_modular(case)
+    except Exception as e:  # noqa
+        return DISCARD('build-raises', labels)
+    desc = 'kind %s, %s\nsub-specifications %s, delivery %s\ndata A: %s\ndata B: %s' % (
+        kind, show(f), [show(from_json(s)) for s in case['subs']], case['delivery'], case[key], case['other'])
+    first = None
+    if case['first_good']:
+        try:
+            first = run(spec, good)
+        except Exception as e:  # noqa
+            return DISCARD('good-data-raises(C17)', labels)
+    failed = False
+    try:
+        run(spec, bad)
+    except Exception:  # noqa
+        failed = True
+    try:
+        last = run(spec, good)
+    except Exception as e:  # noqa
+        o = exc_outcome(e)
+        if not failed:
+            return DISCARD('re-evaluation-raises-without-failure(repeat lane)', labels)
+        return FAIL('raises-after-failed-evaluation:' + kind, desc + '\nevaluate(A) after the failed evaluate(B) raised %s: %s at %s; a fresh object returns %r' % (
+            o[1], o[3], o[4], fresh[0]), labels)
+    if failed:
+        labels.append('intervening-failure')
+    if last[0] != fresh[0]:
+        return FAIL(('result-after-failed-evaluation:' if failed else 'result-after-other-data:') + kind,
+                    desc + '\nevaluate(A) after evaluate(B)%s: %r\nfresh object on A: %r' % (' (which raised)' if failed else '', last[0], fresh[0]), labels)
+    if last[1] != fresh[1]:
+        bad_names = [nm for nm in names if last[1].get(nm) != fresh[1].get(nm)]
+        return FAIL(('get_value-after-failed-evaluation:' if failed else 'get_value-after-other-data:') + kind,
+                    desc + '\nafter evaluate(B)%s and evaluate(A): get_value differs from a fresh object for %s: %r vs %r' % (
+                        ' (which raised)' if failed else '', bad_names, {k: last[1][k] for k in bad_names}, {k: fresh[1][k] for k in bad_names}), labels)
+    if first is not None and first[0] != last[0]:
+        return FAIL('first-and-third-differ:' + kind, desc + '\nfirst evaluate(A): %r\nthird: %r' % (first[0], last[0]), labels)
+    return PASS(failed and len(case['subs']) >= 1, labels)
+
+
+def cand_after_failure(case):
+    from ..modular import mod_candidates
+    for c in mod_candidates(case):
+        if FAULT_VAR in F.fvars(from_json(c['formula'])):
+            c = dict(c)
+            if 'trace' in c and len(next(iter(c['trace'].values()))) != len(next(iter(case['trace'].values()))):
+                continue
+            yield c
+
+
 LANES = [
+    Lane('after_failure', lambda tier: after_failure_cases(tier), check_after_failure, 1500, 20000, cand_after_failure),
     Lane('inputs_chunked', lambda tier: chunked_inputs_cases(tier), check_inputs, 1500, 20000, cand_obj),
     Lane('inputs', lambda tier: inputs_cases(tier), check_inputs, 4000, 50000, cand_obj),
     Lane('repeat', lambda tier: repeat_cases(tier), check_repeat, 1500, 20000, cand_repeat),
